@@ -5,7 +5,7 @@
     harness compares them with asttokens on every generated text). *)
 From Coq Require Import List String Ascii Bool.
 From MX Require Import Capture.Model Capture.Texts Capture.Proofs Capture.ProofsDef Capture.ProofsDoc
-     Capture.Main Capture.Examples.
+     Capture.ProofsStored Capture.Main Capture.Examples.
 Import ListNotations.
 Open Scope list_scope.
 
@@ -55,13 +55,10 @@ Theorem C20_rename_inert : forall t nm nm',
 Proof. exact rename_main. Qed.
 Print Assumptions C20_rename_inert.
 
-(** replacing the documentation changes the docstring statement only, and
-    the documentation read back is the one given, when it is [safe_doc].
-    PARTIAL: stated for [replace_docstring]; the full statement
-      set_doc_src (drender t) (dpos_of t) d false name npos = drender (set_doc_text t d)
-    additionally needs that the edited text is again a canonical def text
-    (then C20_idem applies); that step is covered by the tie only. *)
-Theorem C20_doc_inert_partial : forall t d,
+(** [replace_docstring] splices the quoted documentation in place of the
+    docstring statement (or in front of the first statement) and keeps
+    everything else - for every view and every documentation string *)
+Theorem C20_replace_docstring : forall t d,
   replace_docstring (drender t) (dpos_of t) d false = drender (set_doc_text t d)
   /\ d_front (set_doc_text t d) = d_front t /\ d_bind (set_doc_text t d) = d_bind t
   /\ (exists sep, d_tail (set_doc_text t d) = sep ++ d_tail t /\
@@ -70,7 +67,36 @@ Theorem C20_doc_inert_partial : forall t d,
   /\ (safe_doc d = true ->
       read_doc (skipn (dp_S (dpos_of t)) (drender (set_doc_text t d))) = Some d).
 Proof. exact doc_main_partial. Qed.
-Print Assumptions C20_doc_inert_partial.
+Print Assumptions C20_replace_docstring.
+
+(** [set_doc] (edit, then [Formula(edited, name)] again): the stored text
+    changes in the docstring statement only, is a stored text again (a fixed
+    point of [Formula]; name token unchanged), and the documentation read
+    back is the one given - for every well-formed docstring view of a stored
+    text and every [safe_doc] documentation string.
+    (insert_indents=True is covered by the tie only.) *)
+Theorem C20_doc_inert : forall t name npos d,
+  wf_dtext t name npos -> safe_doc d = true ->
+  let s' := set_doc_src (drender t) (dpos_of t) d false name npos in
+  s' = drender (set_doc_text t d)
+  /\ stored s' name npos
+  /\ init_from_funcdef s' (Some name) None npos = s'
+  /\ read_doc (skipn (dp_S (dpos_of t)) s') = Some d.
+Proof. exact doc_main. Qed.
+Print Assumptions C20_doc_inert.
+
+(** the decidable test the tie evaluates on every generated view implies
+    the hypothesis of C20_doc_inert *)
+Theorem C20_doc_wf_check : forall t name npos,
+  wf_dtextb t name npos = true -> wf_dtext t name npos.
+Proof. exact doc_check_main. Qed.
+Print Assumptions C20_doc_wf_check.
+
+(** every stored text is a fixed point of [Formula(text, name)] *)
+Theorem C20_stored_fixed : forall s name npos,
+  stored s name npos -> init_from_funcdef s (Some name) None npos = s.
+Proof. exact stored_main. Qed.
+Print Assumptions C20_stored_fixed.
 
 (** a lambda embedded in a longer statement is stored as the lambda
     expression itself, and storing that again changes nothing *)
